@@ -25,7 +25,7 @@ def arithRRemit (op : BitVec 32) (k0 k1 : RegKind) (r0 r1 : BitVec 32) : Except 
 def entryOkArith (e : Entry) : Bool :=
   match e.rule.ops, e.kinds with
   | [f0, f1], [k0, k1] =>
-    e.enc == 0x19 && (legRuleOk e.rule 0 ((finalOpArith e >>> 21) &&& 3#32).toNat && (legAgreeOk e.rule (finalOpArith e) &&
+    (e.enc == 0x19 || e.enc == 0x3D) && (legRuleOk e.rule 0 ((finalOpArith e >>> 21) &&& 3#32).toNat && (legAgreeOk e.rule (finalOpArith e) &&
     (f0.role == .rm && (f1.role == .reg && (((is8 k0 && is8 k1) || (plainKind k0 && plainKind k1 && !is8 k0)) &&
     (noFix f0 && (noFix f1 && (formOpMatches e.rule.oszEff f0 (.reg k0 0) && formOpMatches e.rule.oszEff f1 (.reg k1 0)))))))))
   | _, _ => false
@@ -35,7 +35,7 @@ theorem arith_entries_ok : larithChunks.all (fun c => c.all entryOkArith) = true
 theorem is8_spec (k : RegKind) (h : is8 k = true) : k = .gpb ∨ k = .gpbhi := by
   cases k <;> simp_all [is8]
 
-/-- **front_cls_correct, class X86Arith, register-register.** ALL register numbers 0..15 (AH..BH: ids 0..3), all operand sizes. -/
+/-- **front_cls_correct, classes X86Arith and X86Test (`test r, r`), register-register.** ALL register numbers 0..15 (AH..BH: ids 0..3), all operand sizes. -/
 theorem front_cls_correct_arith_rr (e : Entry) (ch : List Entry) (hch : ch ∈ larithChunks) (he : e ∈ ch)
     (ctx : Spec.X86.Ctx) (r0 r1 : BitVec 32) (hm64 : ctx.mode64 = true) (h0 : r0 < 16#32) (h1 : r1 < 16#32)
     (hhi : ∀ k0 k1, e.kinds = [k0, k1] → (k0 = .gpbhi → r0 < 4#32) ∧ (k1 = .gpbhi → r1 < 4#32))
@@ -72,15 +72,21 @@ theorem front_cls_correct_arith_rr (e : Entry) (ch : List Entry) (hch : ch ∈ l
   · simp at hok
 
 /-- the class switch reaches exactly `arithRRemit`: register-register operands of equal size, no instruction options -/
-theorem dispatch_arith_rr (c : Model.X86.Ctx) (row : Row) (k0 k1 : RegKind) (i0 i1 : Nat) (henc : row.encoding = 0x19)
+theorem dispatch_arith_rr (c : Model.X86.Ctx) (row : Row) (k0 k1 : RegKind) (i0 i1 : Nat) (henc : row.encoding = 0x19 ∨ row.encoding = 0x3d)
     (hk : (is8 k0 = true ∧ is8 k1 = true) ∨ (k0 = k1 ∧ (k0 = .gpw ∨ k0 = .gpd ∨ k0 = .gpq))) :
     dispatch c row 0#32 (.reg (rtypeOf k0) i0) (.reg (rtypeOf k1) i1) .none .none =
       arithRRemit (addArithBySize row.mainOp (kindSize k0)) k0 k1 (r32 i0) (r32 i1) := by
-  rcases hk with ⟨a, b⟩ | ⟨rfl, h | h | h⟩
-  · rcases is8_spec _ a with h0 | h0 <;> rcases is8_spec _ b with h1 | h1 <;> subst h0 <;> subst h1 <;>
-      simp [dispatch, henc, sig3, Op.kind, Op.id, Op.rmSize, rtypeOf, arithRRemit, is8, kindSize, fixupGpb, fixK, Op.isGp8Hi, oModRM]
-  · subst h; simp [dispatch, henc, sig3, Op.kind, Op.id, Op.rmSize, rtypeOf, arithRRemit, is8, kindSize, oModRM]
-  · subst h; simp [dispatch, henc, sig3, Op.kind, Op.id, Op.rmSize, rtypeOf, arithRRemit, is8, kindSize, oModRM]
-  · subst h; simp [dispatch, henc, sig3, Op.kind, Op.id, Op.rmSize, rtypeOf, arithRRemit, is8, kindSize, oModRM]
+  rcases henc with henc | henc <;> rcases hk with ⟨a, b⟩ | ⟨rfl, h | h | h⟩
+  all_goals first
+  | (rcases is8_spec _ a with h0 | h0 <;> rcases is8_spec _ b with h1 | h1 <;> subst h0 <;> subst h1 <;>
+      simp [dispatch, henc, sig3, Op.kind, Op.id, Op.rmSize, rtypeOf, arithRRemit, is8, kindSize, fixupGpb, fixK, Op.isGp8Hi, oModRM])
+  | (subst h; simp [dispatch, henc, sig3, Op.kind, Op.id, Op.rmSize, rtypeOf, arithRRemit, is8, kindSize, oModRM])
+
+/-- `imul reg, reg` (class X86Imul): the class switch hands `0F AF /r` with the operand-size prefix / REX.W to `EmitX86R` (reg = destination) -/
+theorem dispatch_imul_rr (c : Model.X86.Ctx) (row : Row) (k : RegKind) (i0 i1 : Nat) (henc : row.encoding = 0x21)
+    (hk : k = .gpw ∨ k = .gpd ∨ k = .gpq) :
+    dispatch c row 0#32 (.reg (rtypeOf k) i0) (.reg (rtypeOf k) i1) .none .none =
+      emitX86R (addPrefixBySize 0x1AF#32 (kindSize k)) 0#32 (r32 i0) (r32 i1) 0 0 := by
+  rcases hk with h | h | h <;> subst h <;> simp [dispatch, henc, sig3, Op.kind, Op.id, Op.rmSize, rtypeOf, kindSize]
 
 end AsmjitVerif.Props.C01
